@@ -37,6 +37,17 @@ Fixpoint has_file (D : dirs) (d f : string) : bool :=
   | (d', fs) :: tl => if String.eqb d d' then existsb (String.eqb f) fs else has_file tl d f
   end.
 
+(* settings.rc(schema=v): the first branch of the if/elif chain whose list of accepted spellings
+   contains v decides which calls are made; no branch, no call.  A session = `import lingpy`
+   followed by any number of such switches. *)
+Fixpoint schema_seq (T : list (list string * list step)) (v : string) : list step :=
+  match T with
+  | [] => []
+  | (names, seq) :: tl => if existsb (String.eqb v) names then seq else schema_seq tl v
+  end.
+Definition session_seq (T : list (list string * list step)) (imp : list step) (vs : list string) : list step :=
+  (imp ++ flat_map (schema_seq T) vs)%list.
+
 Inductive result (A : Type) : Type :=
 | Ok (a : A)
 | Raise
@@ -237,6 +248,19 @@ Section Model.
     match st with
     | LoadDvt p => [EDvt p; ELoad (dvt_fn p) OLoaded]
     | NewModel m => [EModel m; ELoad (m ++ ".converter") OLoaded]
+    end.
+
+  (* the calls that had to rebuild their entry, read off the trace; the files a call may write *)
+  Definition rebuilds (ev : list event) : list step :=
+    flat_map (fun e => match e with
+                       | ECompileModel m => [NewModel m]
+                       | ECompileDvt p => [LoadDvt p]
+                       | _ => []
+                       end) ev.
+  Definition step_files (st : step) : list string :=
+    match st with
+    | LoadDvt p => [path (dvt_fn p)]
+    | NewModel m => [path (m ++ ".converter"); path (m ++ ".scorer")]
     end.
 
   Definition is_compile (e : event) : bool :=
